@@ -141,6 +141,10 @@ def make_cases(tier, seed):
             j = rng.randrange(len(ks))
             twin = {1: rng.choice([True, 1.0]), 0: rng.choice([False, 0.0]), 2: 2.0}.get(ks[j], ks[j]) if not isinstance(ks[j], bool) else ks[j]
             ks.insert(rng.randint(0, len(ks)), rng.choice([ks[j], twin]))       # a repeat, or its ==-twin of another type
+        if rng.random() < 0.3:
+            # a listed key that cannot be a mapping key (looking it up is undefined), before / between / after keys that
+            # ARE present: whether the look-up is reached depends on the callable (all of them vs. the first hit)
+            ks.insert(rng.randint(0, len(ks)), rng.choice([["x"], {"a": 1}, []]))
         if fn in gen.N_OF:
             acts = [rng.randint(0, len(ks)), ks]
         elif fn in ("keys_contain_at_least_one_of", "keys_contain_at_most_one_of"):
